@@ -39,6 +39,10 @@ def CloseCfg.delays (c : CloseCfg) : MonDelays := monDelaysOfChannel c.holderSel
 def itemCsv (c : CloseCfg) : Kind → Option Nat
   | .toSelf => if c.holderClose then fundingSpendLocalCsv c.delays else none
   | .inboundHtlcUnknown => none
+  -- the node's preimage claim of an inbound HTLC is an HTLC-success transaction (accepted_preimage_claim) on the HOLDER's commitment, where
+  -- the HTLC is not offered, and a direct offered-preimage claim on the counterparty's, where it is: the csv of the HTLCSpendConfirmation
+  -- is the TRANSLATED `on_to_local_output_csv` under the TRANSLATED direction of is_resolving_htlc_output (`resolvingHtlcOutbound`)
+  | .inboundHtlcPreimage => htlcSpendToLocalCsv c.delays c.holderClose (resolvingHtlcOutbound c.holderClose (!c.holderClose))
   | _ => if c.holderClose then some (delayedDescriptorToSelfDelay c.delays) else none
 
 /-- the CSV that is REALLY in the script of that output, as chan_utils.rs builds the holder's
